@@ -44,6 +44,7 @@ typedef struct vt_cb {
     int cat[VT_CB_MAX];
     bool one_line[VT_CB_MAX];
     char last[256];
+    int errno_at_entry;			/* errno when the last call came in */
 } vt_cb_t;
 extern vt_cb_t vt_cb;
 extern void vt_cb_reset(void);
